@@ -83,6 +83,9 @@ fn main() {
             gen::enum_seq(gen::NARROW, if quick { 4 } else { 5 }, 0, 1, &mut |b| {
                 writeln!(out, "P {}", mon::hex(b)).unwrap();
             });
+            gen::enum_lex(0, 1, &mut |b| {
+                writeln!(out, "P {}", mon::hex(b)).unwrap();
+            });
             let mut r = rng::Rng::new(rng::mix(&[seed, 0xC20]));
             let n = if quick { 60_000 } else { 600_000 };
             // the calls are pure functions of their input: echo lines (the same input again, directly
@@ -236,6 +239,12 @@ fn main() {
             }
             let mut dict = String::new();
             let mut toks: Vec<&[u8]> = gen::WIDE.iter().chain(gen::NARROW.iter()).chain(gen::LANGID_ALPHA.iter()).cloned().collect();
+            {
+                use vmon::lexicon as lx;
+                for l in [lx::LANGS, lx::SCRIPTS, lx::REGIONS, lx::VARIANTS, lx::UKEYS, lx::UTYPES, lx::TKEYS, lx::TVALUES] {
+                    toks.extend(l.iter().map(|w| w.as_bytes()));
+                }
+            }
             toks.sort();
             toks.dedup();
             for t in toks {
